@@ -502,7 +502,7 @@ def _step_strategy():
         st.builds(lambda n, i: S("topicosvg", (n,), i), st.sampled_from([1, 3]), ip),
         st.builds(lambda p, x, i: S("set_attributes", (p, x), i), pairs, xp, ip),
         st.builds(lambda p, x, i: S("remove_attributes", (p, x), i), names, xp, ip),
-        st.builds(lambda x: S("append_to", (x,)), st.sampled_from(["/svg:svg", "//svg:g", "/svg:svg/svg:*[1]"])),
+        st.builds(lambda x: S("append_to", (x,)), st.sampled_from(["/svg:svg", "/svg:svg", "(//svg:g)[1]", "/svg:svg/svg:*[1]"])),
         st.just(S("checkpicosvg_drop")),
         st.sampled_from(QUERIES).map(S),
         st.sampled_from(QUERIES).map(S),
